@@ -197,7 +197,7 @@ func ruleIDDerivation(w *World, r *Run, rule string) {
 		var opaque []string
 		opaque = append(opaque, fnRun, fnFeedOnce)
 		for _, f := range w.prodFns() {
-			if pkgPathOf(f) == pkgPathOf(fn) && f != fn && f.Parent() == nil && !reachesCallee(f, 0, fnRun, fnFeedOnce) {
+			if pkgPathOf(f) == pkgPathOf(fn) && f != fn && f.Parent() == nil && !reachesCallee(f, 0, fnRun, fnFeedOnce) && !returnsFunc(f) {
 				opaque = append(opaque, funcNameOrSSA(f))
 			}
 		}
